@@ -148,7 +148,8 @@ fn conforming(rng: &mut Rng, t: &TyDesc, level: usize) -> FieldValue {
         return FieldValue::Null;
     }
     if level + 1 < t.flags.len() {
-        let n = rng.below(4);
+        // keep deep types linear in size: one element per level below the third
+        let n = if level >= 3 { 1 } else { rng.below(4) };
         FieldValue::List((0..n).map(|_| conforming(rng, t, level + 1)).collect::<Vec<_>>().into())
     } else {
         match t.base.as_str() {
